@@ -125,6 +125,11 @@ def corpus():
         case("lex", (False, False, False), "1...", "corpus:follow"),
         case("lex", (False, False, False), "0xF 1_ 01 1.5e3.2", "corpus:follow"),
         case("doc", (False, False, False), "{ a(x: 1.2...) }", "corpus:follow"),
+        # seed C01-i: fragment names that are substrings of "on"
+        case("doc", (False, False, False), "fragment n on T { a }", "corpus:C01-i"),
+        case("doc", (False, False, False), "fragment o on T { a }", "corpus:C01-i"),
+        case("doc", (False, False, False), "{ ...n ...o }", "corpus:C01-i"),
+        case("doc", (True, True, True), "fragment o($n: o) on n { ...n @o(n: o) }", "corpus:C01-i"),
         # seed C01-h: ~1000 consecutive comment lines (a licence header) -- flat, no nesting
         flat_case("doc", (False, False, False), "", "# a licence header line\n", 1200, "{ a }", "ignored", "corpus:C01-h"),
         flat_case("value", (True, True, True), "[1 ", "# x\n", 1200, " 2]", "ignored", "corpus:C01-h"),
@@ -230,6 +235,10 @@ def generate(rng, tier):
         for flags in G.FLAG_TRIPLES:
             out.append(case("doc", flags, text, "enum:production-" + label))
     out += flat_cases(quick)
+    # every name position x every part of a keyword (a name that is a substring of "on", "true", ... is
+    # an ordinary name everywhere)
+    for flags, text, label in G.name_position_cases(quick, rng):
+        out.append(case("doc", flags, text, "enum:name-position-" + label))
     # one text per lexical error site, inside a document, under all 8 flag triples
     for text in LEXICAL_ERRORS:
         for flags in G.FLAG_TRIPLES:
